@@ -288,6 +288,10 @@ func TestVerifC11(t *testing.T) {
 		{"unknown-cookie", map[string]string{"Cookie": "agh_session=" + strings.Repeat("ab", 16)}, false},
 		{"malformed-cookie", map[string]string{"Cookie": "agh_session=zz-not-hex"}, false},
 		{"empty-cookie", map[string]string{"Cookie": "agh_session="}, false},
+		{"quoted-empty-cookie", map[string]string{"Cookie": `agh_session=""`}, false},
+		{"empty-cookie-among-others", map[string]string{"Cookie": "lang=en; agh_session=; theme=dark"}, false},
+		{"empty-then-unknown-cookie", map[string]string{"Cookie": "agh_session=; agh_session=" + strings.Repeat("ab", 16)}, false},
+		{"all-zero-cookie", map[string]string{"Cookie": "agh_session=" + strings.Repeat("00", 16)}, false},
 		{"expired-cookie", map[string]string{"Cookie": "agh_session=" + expired}, false},
 		{"logged-out-cookie", map[string]string{"Cookie": "agh_session=" + loggedOut}, false},
 		{"valid-cookie-plus-suffix", map[string]string{"Cookie": "agh_session=" + valid + "00"}, false},
@@ -300,17 +304,17 @@ func TestVerifC11(t *testing.T) {
 		{"valid-cookie", map[string]string{"Cookie": "agh_session=" + valid}, true},
 		{"valid-basic", map[string]string{"Authorization": basic(sysUser, sysPass)}, true},
 	}
+	// Quick: the full request matrix for a core of credential shapes; the
+	// other shapes get one request per route (its declared method).
+	light := map[string]bool{}
 	if !verifkit.Thorough() {
-		// Quick: a core of credential shapes.
 		keep := map[string]bool{"none": true, "unknown-cookie": true, "expired-cookie": true, "logged-out-cookie": true, "wrong-basic": true,
 			"basic-unknown-user-empty-password": true, "bad-cookie-and-right-basic": true, "valid-cookie": true, "valid-basic": true}
-		var core []cred
 		for _, c := range creds {
-			if keep[c.name] {
-				core = append(core, c)
+			if !keep[c.name] {
+				light[c.name] = true
 			}
 		}
-		creds = core
 	}
 	allMethods := []string{"GET", "POST", "PUT", "DELETE", "HEAD", "OPTIONS", "PATCH"}
 	type shape struct{ ctype, body string }
@@ -451,6 +455,19 @@ func TestVerifC11(t *testing.T) {
 					}
 					if public && (m != "GET" || sh.body != "") {
 						continue
+					}
+					if light[c.name] {
+						wantM := declared
+						if wantM == "" {
+							wantM = "GET"
+						}
+						wantBody := ""
+						if wantM != "GET" {
+							wantBody = "{}"
+						}
+						if m != wantM || sh.body != wantBody || (sh.body != "" && sh.ctype != "application/json") {
+							continue
+						}
 					}
 					check(route, declared, m, target, sh, c, "as-is")
 				}
